@@ -137,6 +137,30 @@ def read_req_iter() -> Dict[str, Any]:
     if not (isinstance(s6, ast.Assign) and _is_name(s6.targets[0], "line_parts") and len(sp) == 1 and s6.value is sp[0]
             and not sp[0].args and not sp[0].keywords):
         raise TranslateError("`line_parts = full_line.split()` not found")
+    # if line_parts[0].startswith(P): shlex.split(_COMMENT_RE.sub("", full_line)); --requirement=FILE
+    g7 = body[7]
+    gt = g7.test if isinstance(g7, ast.If) else None
+    if not (gt is not None and isinstance(gt, ast.Call) and isinstance(gt.func, ast.Attribute) and gt.func.attr == "startswith"
+            and _sub0(gt.func.value, "line_parts", 0) and len(gt.args) == 1 and not g7.orelse and len(g7.body) == 3):
+        raise TranslateError("the option-line grammar block (`if line_parts[0].startswith(..): line_parts = shlex.split(..)`) was not found")
+    grammar_prefix = _const_str(gt.args[0])
+    inner_if = g7.body[2]
+    try:
+        grammar_flags = T.literal(inner_if.test.values[1].comparators[0])
+    except Exception:
+        raise TranslateError("the `--requirement=FILE` test of the option-line grammar block has an unrecognised shape")
+    expected = (
+        "if line_parts[0].startswith({p!r}):\n"
+        "    line_parts = shlex.split(_COMMENT_RE.sub('', full_line))\n"
+        "    flag, has_value, value = line_parts[0].partition('=')\n"
+        "    if has_value and flag in {f!r}:\n"
+        "        line_parts[:1] = [flag, value]\n").format(p=grammar_prefix, f=grammar_flags)
+    if ast.dump(ast.parse(expected).body[0]) != ast.dump(g7):
+        raise TranslateError("the option-line grammar block differs from the recognised shape")
+    cre = T.module_const(T.parse("req_compile/utils.py"), "_COMMENT_RE")
+    if ast.dump(cre) != ast.dump(ast.parse("re.compile(r'(^|\\s+)#.*$')").body[0].value):
+        raise TranslateError("_COMMENT_RE is not re.compile(r'(^|\\s+)#.*$')")
+    body = body[:7] + body[8:]
     s7 = body[7]
     if not (isinstance(s7, ast.If) and isinstance(s7.test, ast.Compare) and isinstance(s7.test.ops[0], ast.In)
             and _sub0(s7.test.left, "line_parts", 0)):
@@ -145,6 +169,8 @@ def read_req_iter() -> Dict[str, Any]:
     if not (isinstance(flags, tuple) and flags and all(isinstance(x, str) for x in flags)):
         raise TranslateError("include flags are not a tuple of strings")
     r["include_flags"] = list(flags)
+    if tuple(grammar_flags) != tuple(flags):
+        raise TranslateError("the include flags of the grammar block and of the include test disagree")
     # include argument: os.path.join(relative_dir or D, line_parts[K].strip())
     joins = [n for n in ast.walk(s7) if isinstance(n, ast.Call) and isinstance(n.func, ast.Attribute) and n.func.attr == "join"
              and isinstance(n.func.value, ast.Attribute) and n.func.value.attr == "path"]
@@ -172,6 +198,8 @@ def read_req_iter() -> Dict[str, Any]:
             and _sub0(t.func.value, "line_parts", 0)):
         raise TranslateError("`elif line_parts[0].startswith(..)` not found")
     r["option_prefix"] = _const_str(_one(t.args, "startswith arg"))
+    if grammar_prefix != r["option_prefix"]:
+        raise TranslateError("the option prefix of the grammar block and of the option branch disagree")
     ext = e.body[0]
     if not (len(e.body) == 1 and isinstance(ext, ast.Expr) and isinstance(ext.value, ast.Call)
             and isinstance(ext.value.func, ast.Attribute) and ext.value.func.attr == "extend"
@@ -257,8 +285,10 @@ def read_bazel() -> Dict[str, Any]:
     if not (isinstance(it, ast.Call) and isinstance(it.func, ast.Attribute) and it.func.attr == "splitlines"
             and _is_name(it.func.value, "content") and not it.args):
         raise TranslateError("loop is not over content.splitlines()")
+    if not (loop.body and ast.dump(loop.body[0]) == ast.dump(ast.parse("line = line.strip()").body[0])):
+        raise TranslateError("the scanner loop does not start with `line = line.strip()`")
     rules = []
-    for st in loop.body:
+    for st in loop.body[1:]:
         ok = (isinstance(st, ast.If) and not st.orelse and len(st.body) == 1 and isinstance(st.test, ast.Call)
               and isinstance(st.test.func, ast.Attribute) and st.test.func.attr == "startswith" and _is_name(st.test.func.value, "line")
               and len(st.test.args) == 1)
@@ -394,6 +424,19 @@ def read_cli() -> Dict[str, Any]:
     rname = pa.targets[0].id if isinstance(pa.targets[0], ast.Name) else None
     if rname is None:
         raise TranslateError("re-parse result is not bound to a name")
+    tail_src = ""
+    for dest, var, item in (("index_urls", "all_index_urls", "url"), ("extra_index_urls", "all_extra_index_urls", "url"),
+                            ("find_links", "all_find_links", "link")):
+        tail_src += ("{v} = OrderedDict(zip(args.{d}, repeat(None)))\nfor {i} in {r}.{d}:\n    {v}[{i}] = None\nargs.{d} = list({v})\n"
+                     .format(v=var, d=dest, i=item, r=rname))
+    tail_src += "args.no_index = args.no_index or {r}.no_index\n".format(r=rname)
+    tail_src += ("for editable_source in {r}.editable_sources:\n    input_reqs.append(_create_dist_from_path(editable_source))\n"
+                 "args.sources += {r}.editable_sources\n").format(r=rname)
+    want = [ast.dump(x) for x in ast.parse(tail_src).body]
+    have = [ast.dump(x) for x in b[i + 1:]]
+    if want != have:
+        raise TranslateError("the merge of the re-parsed options into args (index_urls, extra_index_urls, find_links as ordered "
+                             "de-duplicating unions; no_index by `or`; editable sources) has an unrecognised shape")
     merged: List[str] = []
     for st in b[i + 1:]:
         for n in ast.walk(st):
@@ -435,6 +478,7 @@ def gen_consts() -> str:
         [f"({L([_cstr(p) for p in pre])}, {cut}, {tgt})" for pre, cut, tgt in bz["rules"]]) + ".\n"
     out += f"Definition c16_bzl_comment : ascii := ascii_of_nat {ord(bz['comment'])}.\n"
     out += f"Definition c16_bzl_strip : string := {_cstr(bz['strip'])}.\n"
+    out += "Definition c16_bzl_strip_line : bool := true.   (* the loop starts with `line = line.strip()` *)\n"
     out += "(* " + ", ".join(bz["order"]) + " *)\n"
     out += "(* req_compile/cmdline.py add_repo_args + -e: (option strings, dest, 0 append | 1 store | 2 store_true, normalised) *)\n"
     out += "Definition c16_cli_options : list (list string * string * nat * bool) := " + L(
